@@ -1,4 +1,5 @@
 """C27 -- Byte-level BPE tokenization round-trips and reports consistent offsets (DESIGN.md section 2, C27)."""
+import os
 import vf
 
 META = {
@@ -43,8 +44,14 @@ def main(ctx):
                         "pre-tokenizer chunks are consecutive and cover the (normalized) text; normalizer offset map satisfies norm_ok"]
     ctx.audit(GROUP)
     failed = ctx.prove(GROUP, "Props_C27", THEOREMS)
+    ok, out = ctx.make(GROUP, ["ModelC27.vo"])          # the case record / agree / prop_ok (no proofs inside)
+    if not ok:
+        raise vf.CheckerBroken("ModelC27.v does not compile: " + out[-1500:])
     bindir = ctx.harness(GROUP, profile="release", bins=["c27"])
     cases = ctx.gen_exec(bindir, "c27", ctx.n(150, 3000), inputs=ctx.replay_inputs())
+    lim = int(os.environ.get("VERIF_BPE_LIMIT", "0"))   # debugging aid (mutation experiments): stratified subset
+    if lim and len(cases) > lim:
+        cases = cases[::len(cases) // lim]
     ctx.correspond("Tokenizer::encode/decode", GROUP, REQ, cases, show="show", shard=ctx.n(10, 60),
                    fn_name="Bpe.ModelBpe.{byte_to_char,bpe_new,tk_encode,text_for_token,decode}")
     if failed and not ctx.violations:
